@@ -2,7 +2,9 @@ package rules
 
 import (
 	"fmt"
+	"go/constant"
 	"go/token"
+	"go/types"
 	"strings"
 
 	"golang.org/x/tools/go/ssa"
@@ -214,14 +216,18 @@ func c04Single(c *Ctx, d *driverModel) {
 
 func c04Complete(c *Ctx, d *driverModel) {
 	r := c.R
-	// (i) forwarder
-	var fwd *ssa.Function
-	for _, mc := range goClosures(d.process) {
-		fn := mc.Fn.(*ssa.Function)
-		for _, b := range fn.Blocks {
+	// (i) forwarder: a function the go arm starts (closure or method) that completes the search after
+	// the result channel closed, exactly when the search is not infinite, with the last PV received
+	var fwd *goTarget
+	for _, t := range goTargets(d.process) {
+		t := t
+		if t.timer {
+			continue
+		}
+		for _, b := range t.fn.Blocks {
 			for _, ins := range b.Instrs {
 				if call, ok := ins.(ssa.CallInstruction); ok && call.Common().StaticCallee() == d.searchCompleted {
-					fwd = fn
+					fwd = &t
 				}
 			}
 		}
@@ -229,40 +235,85 @@ func c04Complete(c *Ctx, d *driverModel) {
 	if fwd == nil {
 		r.Fail("R04-complete", "the forwarder completes a search that ends by itself", c.pos(d.process.Pos()), "", "no goroutine started by the go arm calls the completion function")
 	} else {
-		good, detail := false, ""
-		for _, b := range fwd.Blocks {
+		good, detail := false, "the completion is not guarded by the infinite flag"
+		for _, b := range fwd.fn.Blocks {
 			for _, ins := range b.Instrs {
 				call, ok := ins.(ssa.CallInstruction)
 				if !ok || call.Common().StaticCallee() != d.searchCompleted {
 					continue
 				}
-				// guard: !infinite (free variable), after the range loop over the result channel ended
-				cur := b
-				for cur != nil {
-					dd := cur.Idom()
-					if dd == nil {
-						break
+				// guard: the flag that is set exactly by the "infinite" option of the go command is false
+				for _, ge := range edgeGuards(b) {
+					cond, pol := ge.cond, ge.pol
+					if u, ok := cond.(*ssa.UnOp); ok && u.Op == token.NOT {
+						cond, pol = u.X, !pol
 					}
-					if ifi, ok := dd.Instrs[len(dd.Instrs)-1].(*ssa.If); ok {
-						e := pathExpr(ifi.Cond)
-						if strings.Contains(e, "infinite") {
-							onFalse := onEdge(dd, 1, cur)
-							neg := strings.HasPrefix(e, "!")
-							good = onFalse != neg
-							detail = "guard " + e
+					if _, isBool := cond.Type().Underlying().(*types.Basic); !isBool || cond.Type().Underlying().(*types.Basic).Kind() != types.Bool {
+						continue
+					}
+					defs := fwd.outerDefs(cond)
+					nTrue, nFalse, other := 0, 0, 0
+					kwOK := true
+					for _, df := range defs {
+						cst, ok := df.val.(*ssa.Const)
+						if !ok || cst.Value == nil || cst.Value.Kind() != constant.Bool {
+							other++
+							continue
+						}
+						if constant.BoolVal(cst.Value) {
+							nTrue++
+							if !guardedByKeyword(df.blk, "infinite") {
+								kwOK = false
+							}
+						} else {
+							nFalse++
 						}
 					}
-					cur = dd
+					if other > 0 || nTrue == 0 || nFalse == 0 || !kwOK {
+						continue // not the infinite flag
+					}
+					good = !pol
+					detail = fmt.Sprintf("completion runs when the infinite flag is %v", pol)
 				}
-				// the PV handed over is the last one received
-				pv := pathExpr(call.Common().Args[2])
-				if !strings.Contains(pv, "last") && !strings.HasPrefix(pv, "phi:") {
+				// the PV handed over is the last one received from the search's result channel
+				lastOK := false
+				nRecv := 0
+				for _, df := range fwd.outerDefs(call.Common().Args[len(call.Common().Args)-1]) {
+					if cst, ok := df.val.(*ssa.Const); ok && cst.Value == nil {
+						continue // zero value before anything was received
+					}
+					ex, ok := df.val.(*ssa.Extract)
+					if !ok || ex.Index != 0 {
+						nRecv = -100
+						continue
+					}
+					rcv, ok := ex.Tuple.(*ssa.UnOp)
+					if !ok || rcv.Op != token.ARROW {
+						nRecv = -100
+						continue
+					}
+					fromAnalyze := false
+					for _, cd := range fwd.outerDefs(rcv.X) {
+						if cex, ok := cd.val.(*ssa.Extract); ok && cex.Index == 0 {
+							if ac, ok := cex.Tuple.(*ssa.Call); ok && ac.Call.StaticCallee() == d.engAnalyze {
+								fromAnalyze = true
+							}
+						}
+					}
+					if fromAnalyze {
+						nRecv++
+					} else {
+						nRecv = -100
+					}
+				}
+				lastOK = nRecv > 0
+				if !lastOK {
 					good = false
-					detail += "; completes with " + pv
+					detail += "; completes with " + pathExpr(call.Common().Args[len(call.Common().Args)-1]) + ", which is not the last PV received from Analyze's channel"
 				}
 			}
 		}
-		r.Check(good, "R04-complete", "the forwarder completes a search that ends by itself", c.pos(fwd.Pos()), "", "the forwarder must complete with the last PV exactly when the search is not infinite ("+detail+")")
+		r.Check(good, "R04-complete", "the forwarder completes a search that ends by itself", c.pos(fwd.fn.Pos()), "", "the forwarder must complete with the last PV exactly when the search is not infinite ("+detail+")")
 	}
 	// (ii) stop arm: on the success path of Halt
 	stop, ok := d.arms["stop"]
@@ -436,56 +487,41 @@ func c04RootPV(c *Ctx) {
 
 func c04Depth1(c *Ctx) {
 	r := c.R
-	halt := c.fn("R04-depth1", "pkg/search/searchctl", "handle", "Halt")
-	process := c.fn("R04-depth1", "pkg/search/searchctl", "handle", "process")
-	if halt == nil || process == nil {
+	h := newHandleModel(c, "R04-depth1")
+	if h == nil {
 		return
 	}
-	// Halt: receive on init.Closed() before quit.Close()
-	recvAt, closeAt := -1, -1
-	i := 0
-	for _, b := range halt.Blocks {
-		for _, ins := range b.Instrs {
-			i++
-			if u, ok := ins.(*ssa.UnOp); ok && u.Op == token.ARROW && strings.Contains(pathExpr(u.X), "h.init") {
-				recvAt = i
-			}
-			if call, ok := ins.(*ssa.Call); ok && call.Call.IsInvoke() && call.Call.Method.Name() == "Close" && strings.Contains(pathExpr(call.Call.Value), "h.quit") {
-				closeAt = i
-			}
+	// Halt: receive on the first-iteration signal before closing quit, on every path
+	var waitInit []flatEv
+	for _, w := range evsOf(h.hlt, hvWait) {
+		if w.Field == h.initF {
+			waitInit = append(waitInit, w)
 		}
 	}
-	r.Check(recvAt > 0 && closeAt > recvAt && len(halt.Blocks) <= 3, "R04-depth1", "Halt waits for the first completed iteration before closing quit", c.pos(halt.Pos()), "", fmt.Sprintf("receive from init at #%d, quit.Close at #%d", recvAt, closeAt))
-	// process: every non-deferred init.Close() is dominated by the store h.pv = pv
-	var pvStore ssa.Instruction
-	for _, b := range process.Blocks {
-		for _, ins := range b.Instrs {
-			if st, ok := ins.(*ssa.Store); ok && strings.HasSuffix(pathExpr(st.Addr), "h.pv") {
-				pvStore = ins
-			}
+	closeQuit := h.closes(h.hlt, h.quitF, false)
+	good := len(waitInit) > 0 && len(closeQuit) > 0
+	for _, q := range closeQuit {
+		if !someBefore(waitInit, q) {
+			good = false
 		}
 	}
-	good := pvStore != nil
-	deferredClose := false
-	n := 0
-	for _, b := range process.Blocks {
-		for _, ins := range b.Instrs {
-			switch x := ins.(type) {
-			case *ssa.Defer:
-				if x.Call.IsInvoke() && x.Call.Method.Name() == "Close" && strings.Contains(pathExpr(x.Call.Value), "h.init") {
-					deferredClose = true
-				}
-			case *ssa.Call:
-				if x.Call.IsInvoke() && x.Call.Method.Name() == "Close" && strings.Contains(pathExpr(x.Call.Value), "h.init") {
-					n++
-					if pvStore == nil || !instrDominates(pvStore, x) {
-						good = false
-					}
-				}
-			}
+	for _, w := range waitInit {
+		if !mustReturnThrough(w.topIns()) {
+			good = false
 		}
 	}
-	r.Check(good && n >= 1 && deferredClose, "R04-depth1", "the first-iteration signal follows the publication of the PV", c.pos(process.Pos()), "", fmt.Sprintf("pv store found=%v, %d explicit init.Close() all after it=%v, deferred close on exit=%v", pvStore != nil, n, good, deferredClose))
+	r.Check(good, "R04-depth1", "Halt waits for the first completed iteration before closing quit", c.pos(h.halt.Pos()), "", fmt.Sprintf("%d receive(s) from the first-iteration signal, %d quit.Close(); every close preceded by a receive on every path: %v", len(waitInit), len(closeQuit), good))
+	// process: every non-deferred first-iteration signal is preceded by the store of the PV
+	stores := evsOf(h.proc, hvStorePV)
+	signals := h.closes(h.proc, h.initF, false)
+	deferred := h.closes(h.proc, h.initF, true)
+	good = len(stores) > 0
+	for _, sg := range signals {
+		if !someBefore(stores, sg) {
+			good = false
+		}
+	}
+	r.Check(good && len(signals) >= 1 && len(deferred) >= 1, "R04-depth1", "the first-iteration signal follows the publication of the PV", c.pos(h.process.Pos()), "", fmt.Sprintf("pv store found=%v, %d explicit signal(s) all after it=%v, deferred signal on exit=%v", len(stores) > 0, len(signals), good, len(deferred) >= 1))
 }
 
 func c04Engines(c *Ctx) {
